@@ -40,20 +40,41 @@ def table_from_source():
     return rows
 
 
-def toy_hpo():
+def toy_hpo(rich=False):
+    """the ontology handed to the loader: two terms - or (`rich`) one that KNOWS the ids the files use: every even HP id up to 3000 is a
+    term whose alternate id is the following odd id, and the recessive mode of inheritance is an alternate id of the dominant one.
+    What a file states does not depend on which of the two the loader was given"""
     import hpotk
     import io
     import json
     P = 'http://purl.obolibrary.org/obo/'
     nodes = [{'id': P + 'HP_0000001', 'lbl': 'All', 'type': 'CLASS'}, {'id': P + 'HP_0000118', 'lbl': 'PA', 'type': 'CLASS'}]
+    more_edges = []
+    if rich:
+        alt = 'http://www.geneontology.org/formats/oboInOwl#hasAlternativeId'
+        for i in list(range(2, 3001, 2)) + [12828]:
+            if i == 118:
+                continue
+            nodes.append({'id': P + f'HP_{i:07d}', 'lbl': f't{i}', 'type': 'CLASS',
+                          'meta': {'basicPropertyValues': [{'pred': alt, 'val': f'HP:{i + 1:07d}'}]}})
+            more_edges.append({'sub': P + f'HP_{i:07d}', 'pred': 'is_a', 'obj': P + 'HP_0000118'})
     d = tempfile.mkdtemp(prefix='verif-c08-toy-')
     try:
         p = os.path.join(d, 'toy.json')
         with open(p, 'w') as fh:
-            json.dump({'graphs': [{'nodes': nodes, 'edges': [{'sub': P + 'HP_0000118', 'pred': 'is_a', 'obj': P + 'HP_0000001'}], 'meta': {}}]}, fh)
+            json.dump({'graphs': [{'nodes': nodes, 'edges': [{'sub': P + 'HP_0000118', 'pred': 'is_a', 'obj': P + 'HP_0000001'}] + more_edges, 'meta': {}}]}, fh)
         return hpotk.load_minimal_ontology(p)
     finally:
         shutil.rmtree(d, ignore_errors=True)
+
+
+_RICH = []
+
+
+def rich_hpo():
+    if not _RICH:
+        _RICH.append(toy_hpo(rich=True))
+    return _RICH[0]
 
 
 def gen_file(rng):
@@ -66,9 +87,12 @@ def gen_file(rng):
     cols = 'database_id\tdisease_name\tqualifier\thpo_id\treference\tevidence\tonset\tfrequency\tsex\tmodifier\taspect\tbiocuration'
     head.append(cols if style == 'new' else '#DatabaseID\tDiseaseName\tQualifier\tHPO_ID\tReference\tEvidence\tOnset\tFrequency\tSex\tModifier\tAspect\tBiocuration')
     nd = rng.randrange(1, 7)
-    diseases = [(f'{rng.choice(["OMIM", "ORPHA", "DECIPHER"])}:{rng.randrange(100000, 100400)}', rng.choice(['SYNDROME A', 'Maladie é', 'x; y', 'D'])) for _ in range(nd)]
+    diseases = [(f'{rng.choice(["OMIM", "ORPHA", "DECIPHER"])}:{rng.randrange(100000, 100400)}', rng.choice(['SYNDROME A', 'Maladie é', 'x; y', 'D', 'Type\u2028II', 'A\x85B', 'A\x0bB', 'A\x0cB', 'A\x1cB', 'A\x1dB\x1eC', 'A\u2029B', ' padded ', 'q"uote', "it's"])) for _ in range(nd)]
     diseases = list({d[0]: d for d in diseases}.values())
     phenos = [f'HP:{i:07d}' for i in rng.sample(range(1, 3000), rng.randrange(1, 9))]
+    if rng.random() < 0.4:          # two ids that some ontology may regard as the same term (an even id and the odd one after it)
+        k = 2 * rng.randrange(2, 1400)
+        phenos += [f'HP:{k:07d}', f'HP:{k + 1:07d}']
     mois = ['HP:0000006', 'HP:0000007', 'HP:0001417']
     lines = []
     for _ in range(rng.randrange(1, 26)):
@@ -212,7 +236,7 @@ def evaluate(ctx, world, hpo, table, cases, stream):
         ctx.count(f'cohort.{c["cohort"]}')
         problem = None
         try:
-            impl = dump_impl(load_impl(world, hpo, c['head'] + c['lines'], c['cohort'], c['salvage']))
+            impl = dump_impl(load_impl(world, rich_hpo() if (len(c['lines']) + c['cohort']) % 2 else hpo, c['head'] + c['lines'], c['cohort'], c['salvage']))
             if 'err' in rep:
                 problem = {'what': 'loaded-although-model-raises', 'model': rep['err']}
             else:
